@@ -92,7 +92,7 @@ def work(job):
         import z3  # noqa: F401
         from . import smt
         from .models import MODELS
-        from . import iomodel, hdrmodel, wrmodel, bytesmodel  # noqa: F401  (register models)
+        from . import iomodel, hdrmodel, wrmodel, bytesmodel, npelem  # noqa: F401  (register models)
         from .source import Source
         from .verify import Verifier
         sys.path.insert(0, VERIF)
